@@ -5,7 +5,7 @@ From Verif Require Import lib.Wire c03.Int64 c03.Model c03.Spec c03.Witness
      c03.Proofs_Int64 c03.Proofs_Base c03.Proofs_Limiter c03.Proofs_Reach c03.Proofs_Link
      c03.Proofs_OpsMem c03.Proofs_Hist c03.Proofs_Mon c03.Proofs_Link2 c03.Proofs_Transfer c03.Proofs_OpsRepar
      c03.Proofs_SetPeer c03.Proofs_Hist2 c03.Proofs_Mon2 c03.Proofs_Keys c03.Proofs_Refs c03.Proofs_RefInv c03.Proofs_GC
-     c03.Proofs_Prio c03.Proofs_Cap c03.Proofs_CapInv c03.Proofs_Just c03.Proofs_Just2 c03.Proofs_Full.
+     c03.Proofs_Prio c03.Proofs_Cap c03.Proofs_CapInv c03.Proofs_Just c03.Proofs_Just2 c03.Proofs_Ans c03.Proofs_Ans2 c03.Proofs_Full.
 Import ListNotations.
 Local Open Scope Z_scope.
 
@@ -235,6 +235,21 @@ Theorem c03_limit_refusal_justified : forall c st a m o,
 Proof. exact just_step. Qed.
 Print Assumptions c03_limit_refusal_justified.
 
+(* "fails with an error wrapping the resource-limit sentinel": in every reachable state
+   every operation of the model answers ok, or the sentinel (class 1), or - and only
+   where the caller / the history explains it - scope-closed (ReserveMemory, BeginSpan on
+   a closed scope or below a closed owner), a plain error (second SetPeer / SetProtocol /
+   SetService, SetService before SetProtocol, negative size) or the per-IP cap
+   (OpenConnection with an IP endpoint).  In particular OpenConnection, OpenStream and a
+   first SetPeer / SetProtocol / SetService are refused ONLY with the sentinel, also after
+   any number of gc steps.  The monitor demands exactly this of the implementation
+   (Spec.answer_ok, part of mon_run) *)
+Theorem c03_refused_only_with_sentinel : forall c st a o, cfg_ok c -> InvL c st a ->
+  match o with OGC => True | _ => wf_op2 c st a o end ->
+  answer_ok a o (snd (step c st o)) = true.
+Proof. exact ans_step. Qed.
+Print Assumptions c03_refused_only_with_sentinel.
+
 (* THE monitor that is run on the implementation's traces - the whole of it:
    answer legality, choice among the candidate successors, usage == sum of
    holders, signs, limits, the priority threshold after every accepted
@@ -304,6 +319,20 @@ Example monitor_rejects_missing_edge :
 Proof. vm_compute. discriminate. Qed.
 
 (* ... and a limit refusal that no scope justifies *)
+(* ... a first SetProtocol of an open stream refused with "scope closed" (seeded m7) ... *)
+Example monitor_rejects_closed_setprotocol :
+  mon_run base_cfg astate0 [] 0
+    [(OOpenStream 0 0 true,
+      mkObs 0 0 [mkEntry (Stream 0) (mkStat 0 1 0 0 0 0) 0 0; mkEntry (Peer 0) (mkStat 0 1 0 0 0 0) 1 0;
+                 mkEntry Transient (mkStat 0 1 0 0 0 0) 2 0; mkEntry System (mkStat 0 1 0 0 0 0) 4 0]);
+     (OSetProto 0 0, mkObs 2 0 [])] = [ERR_PROPERTY; 1; CL_ANSWER; 2; 1].
+Proof. vm_compute. reflexivity. Qed.
+
+(* ... and an OpenConnection refused with an error that does not wrap the sentinel (seeded m8) *)
+Example monitor_rejects_plain_error_openconn :
+  mon_run base_cfg astate0 [] 0 [(OOpenConn 0 true true None, mkObs 3 0 [])] = [ERR_PROPERTY; 0; CL_ANSWER; 3; 1].
+Proof. vm_compute. reflexivity. Qed.
+
 Example monitor_rejects_unjustified_refusal :
   mon_run base_cfg astate0 [] 0 [(OReserve System 10 255, mkObs 1 0 [])] <> [].
 Proof. vm_compute. discriminate. Qed.
